@@ -43,6 +43,11 @@ class Prop(BaseProp):
         self.fake, self.validate, self.represent, self.substitute = fake, validate, represent, substitute
         self.Random = Random
         self.schema = schema
+        # a forwarding custom type (the public extension API), so that sequences contain user types too
+        from .p_c07 import make_hooked_class
+        from d42.declaration import register_type
+        self.env.Hooked = make_hooked_class()
+        register_type("hooked", self.env.Hooked)
 
     # ------------------------------------------------------------ cases
     def gen_case(self, labels, cfg):
@@ -306,6 +311,7 @@ def gen_case(labels, cfg):
     k.p_regex = r.choice((0.0, 0.3, 0.6, 0.9))
     k.p_regex_unsup = r.choice((0.0, 0.0, 0.3))
     k.p_regex_flags = r.choice((0.0, 0.0, 0.3))
+    p_hooked = r.choice((0.0, 0.0, 0.4))
     k.p_value = r.choice((0.0, 0.1))
     if "str" not in k.types and r.random() < 0.7:
         k.types.add("str")
@@ -313,6 +319,9 @@ def gen_case(labels, cfg):
     specs = []
     for _ in range(n):
         spec, w = S.gen(r, k)
+        if p_hooked and r.random() < p_hooked:
+            from .p_c07 import wrap_hooked
+            spec = wrap_hooked(spec, r)
         specs.append(spec)
     x = r.random()
     if x < 0.6:
@@ -387,7 +396,7 @@ def mask_negated(case):
             n["keys"] = [dict(e, s=fix(e["s"])) if "s" in e else e for e in n["keys"]]
         elif t == "any" and "types" in n:
             n["types"] = [fix(x) for x in n["types"]]
-        elif t == "alias":
+        elif t in ("alias", "hooked"):
             n["inner"] = fix(n["inner"])
         elif t == "op":
             for x in ("a", "b", "s"):
